@@ -241,3 +241,51 @@ Proof.
   split; [|repeat (split; [assumption|]); assumption].
   match goal with |- _ = ?rhs => change (hhd_out h = rhs) end. unfold hhd_out. rewrite A. reflexivity.
 Qed.
+
+(* ---- third_partial_derivative_vec: any number of variables, any index triple (repeated indices included) ---- *)
+Definition shift3 (x : list R) (i j k : nat) (xi xj xk s t u : R) : list R :=
+  mapi (fun m xm => xm + delta m i * (s - xi) + delta m j * (t - xj) + delta m k * (u - xk)) x.
+Lemma shift3_base x i j k xi xj xk : shift3 x i j k xi xj xk xi xj xk = x.
+Proof. unfold shift3, mapi. apply mapi_from_id. intros m a. ring. Qed.
+Lemma Forall2_nth {A B} (P : A -> B -> Prop) : forall (l1 : list A) (l2 : list B), length l1 = length l2 ->
+  (forall m a b, nth_error l1 m = Some a -> nth_error l2 m = Some b -> P a b) -> Forall2 P l1 l2.
+Proof.
+  induction l1 as [|a l1 IH]; intros [|b l2] HL H; simpl in HL; try discriminate; constructor.
+  - apply (H 0%nat a b); reflexivity.
+  - apply IH; [lia|]. intros m a' b' Ha Hb. apply (H (S m) a' b'); assumption.
+Qed.
+Lemma length_seed_third_vec (x : list R) i j k : length (seed_third_vec x i j k) = length x.
+Proof. unfold seed_third_vec, set_nth. rewrite !length_mapi, map_length. reflexivity. Qed.
+
+Lemma third_vec_seed_repT (x : list R) i j k xi xj xk :
+  Forall2 (RepT xi xj xk) (mapi (fun m xm => fun s t u : R => xm + delta m i * (s - xi) + delta m j * (t - xj) + delta m k * (u - xk)) x) (seed_third_vec x i j k).
+Proof.
+  apply Forall2_nth; [rewrite length_mapi, length_seed_third_vec; reflexivity|].
+  intros m a b Ha Hb. rewrite nth_error_mapi in Ha. destruct (nth_error x m) as [xm|] eqn:Hm; [|discriminate Ha]. simpl in Ha. inversion Ha as [Ha']. clear Ha.
+  destruct (seed_third_vec_spec x i j k m xm Hm) as [s [Hs [P0 [P1 [P2 [P3 [P12 [P13 [P23 P123]]]]]]]]].
+  rewrite Hb in Hs. inversion Hs. subst s. clear Hs. cbn [part_HHD] in P0, P1, P2, P3, P12, P13, P23, P123.
+  split.
+  - split; [cbn [lo HyperDual_f_re]; rewrite P0; ring|]. exists (fun _ => delta m j). cbn [lo HyperDual_f_eps1 HyperDual_f_eps2 HyperDual_f_eps1eps2].
+    rewrite P1, P2, P12. split; [|split; [|split]].
+    + apply locally_true. intros s. auto_derive; [exact I|]. ring.
+    + auto_derive; [exact I|]. ring.
+    + reflexivity.
+    + apply (is_derive_const (V:=R_NormedModule) (delta m j) xi).
+  - exists (fun _ _ => delta m k). split.
+    + apply loc2_true. intros s t. auto_derive; [exact I|]. ring.
+    + apply (repH_heq xi xj _ (ofF (delta m k))); [apply repH_const|]. unfold heq, hi. cbn [HyperDual_f_re HyperDual_f_eps1 HyperDual_f_eps2 HyperDual_f_eps1eps2].
+      rewrite P3, P13, P23, P123. rcbv. repeat split; reflexivity.
+Qed.
+
+Theorem third_partial_derivative_vec_of_program p (x : list R) i j k xi xj xk : okR x p ->
+  exists h : HyperHyperDual R, third_partial_derivative_vec (fun v => eval v p) x i j k = hhd_out h /\
+    RepT xi xj xk (fun s t u => eval (T:=R) (shift3 x i j k xi xj xk s t u) p) h.
+Proof.
+  intros Hok. exists (eval (seed_third_vec x i j k) p). split; [reflexivity|].
+  set (envV := mapi (fun m xm => fun s t u : R => xm + delta m i * (s - xi) + delta m j * (t - xj) + delta m k * (u - xk)) x).
+  assert (Hat : forall s t u, at_stu envV s t u = shift3 x i j k xi xj xk s t u).
+  { intros s t u. unfold at_stu, envV, shift3, mapi. rewrite mapi_from_map. reflexivity. }
+  assert (Hok' : okR (at_stu envV xi xj xk) p) by (rewrite Hat, shift3_base; exact Hok).
+  apply (repT_ext xi xj xk _ _ _ (mixed_third_order xi xj xk p envV _ (third_vec_seed_repT x i j k xi xj xk) Hok')).
+  intros s t u. rewrite Hat. reflexivity.
+Qed.
